@@ -3,7 +3,7 @@ renders every component."""
 from __future__ import annotations
 
 from ..fold import CannotFold, Folder
-from ..interp import analyze, truth
+from ..interp import analyze, deep_walk, truth
 from ..model import AnalysisError
 from ..report import Ctx, where
 from ..strtpl import flatten
@@ -55,8 +55,11 @@ def human_rules(ctx: Ctx):
     iters = [n for n in rq.loops.values()]
     pct_first = False
     upper = False
+    repl_phis = set()       # the loop-carried text the escapes are applied to
     for e in rq.by_kind("call"):
         if e.func[0] == "attr" and e.func[2] == "replace" and len(e.args) == 2 and e.args[0][0] == "elem":
+            if e.func[1][0] == "phi":
+                repl_phis.add(e.func[1])
             it = e.args[0][1]
             if flatten(it) == [("lit", "%"), ("val", ("param", hq.params[1]))]:
                 pct_first = True
@@ -74,8 +77,11 @@ def human_rules(ctx: Ctx):
         if truth(sparam, st.facts) is False and v == sparam:
             continue
         ctx.instance(rule)
-        uses_raw = any(t == sparam for t in walk(v))
-        uses_replaced = any(t[0] == "phi" and t[2] == hq.params[0] for t in walk(v))
+        # what the returned text is made of, looking through loop-built lists (the values appended to them) but not
+        # behind the replacement loop itself
+        reach = list(deep_walk(rq, v, keep=repl_phis))
+        uses_raw = any(t == sparam for t in reach)
+        uses_replaced = any(t in repl_phis for t in reach)
         ctx.ob(rule, hq.qual, f"return {show(v)[:60]}", uses_replaced and not uses_raw,
                "a return path of human_quote is built from the text before '%' and the position delimiters were replaced: "
                "delimiters survive on that path", where(hq, node), sample="built from the text after the replacement loop")
@@ -100,7 +106,7 @@ def human_rules(ctx: Ctx):
     ctx.rule(rule5, floor=1, what="human_repr renders every component once and uses the explicit port")
     for s, v, node in r.returns:
         ctx.instance(rule5)
-        mentioned = {t[2] for t in walk(v) if t[0] == "attr" and t[1] == S}
+        mentioned = {t[2] for t in deep_walk(r, v) if t[0] == "attr" and t[1] == S}
         need_ = {"user", "password", "host", "path", "query", "fragment", "explicit_port", "_scheme"}
         missing = need_ - mentioned
         bad_port = "port" in mentioned
